@@ -388,7 +388,7 @@ impl SvgElement {
 
 //@item src/element.rs :: impl SvgElement :: fn place_at
 //@ replace[R-opaque-type] <<<ctx: &impl ContextView>>> => <<<ctx: &Ctx>>>
-//@ replace[R-abstract] <<<self.get_target_element(ctx)?.bbox()?>>> => <<<self.target_element_bbox(ctx)?>>>
+//@ replace-re[R-abstract] <<<self\s*\.get_target_element\(ctx\)\?\s*\.bbox\(\)\?>>> => <<<self.target_element_bbox(ctx)?>>>
 //@ ensures
 //@ - final(self).name == old(self).name
 //@ - old(self).name@ != "use"@ ==> r is Ok && final(self).attrs@ == old(self).attrs@.insert("x"@, fstr_spec(val(x))).insert("y"@, fstr_spec(val(y)))     @@C09.dir.place_at
